@@ -82,42 +82,43 @@ def run_shard(shard, tier, h, res, known):
         lo, hi, slo, shi = cases[ci]
         A = alphabet(lo, hi)
         conf = {"valid_addr_range": {"min": slo, "max": shi}}
-        try:
-            m_stream = h.mop(make_rule_doc(["zzzznomatch"], conf))
-        except Exception as e:
-            res.evaluations += 1
-            res.fail({"clause": "compile", "family": "range", "config": conf, "expected": "compiles", "observed": repr(e), "size": 0}, known)
-            continue
         listings = [idx for n in (1, 2) for idx in itertools.product(range(len(A)), repeat=n)]
+        # materialise the listings once
+        mat = []
         for idx in listings:
             att = [(f"{0x500000 + 5 * p:x}", A[i][0], A[i][1]) for p, i in enumerate(idx)]
             lines_annot = {p: A[i][3] for p, i in enumerate(idx)}
-            text = fmt_listing(att)
-            # put objdump's <sym> annotation on direct targets
-            tl = text.split("\n")
+            tl = fmt_listing(att).split("\n")
             k = 0
-            for li, l in enumerate(tl):
+            for li, l in enumerate(tl):       # objdump's <sym> annotation on direct targets
                 if rm.classify_line(l)[0] == "inst":
                     if lines_annot[k]:
                         tl[li] = l + f" <{lines_annot[k]}>"
                     k += 1
-            path = h.listing_file("\n".join(tl))
+            text = "\n".join(tl)
+            mat.append((idx, att, text, h.listing_file(text), [spec(lo, hi, A[i]) for i in idx]))
+        # the global config is process-wide and read at match time: one phase per compiled rule
+        out = {}
+        try:
+            for phase, doc in (("plain", make_rule_doc(["zzzznomatch"])), ("tagged", make_rule_doc(["zzzznomatch"], conf)),
+                               ("call", make_rule_doc([{"call": ["valid_addr"]}], conf)), ("jmp", make_rule_doc([{"jmp": ["valid_addr"]}], conf))):
+                m = h.mop(doc)
+                for idx, att, text, path, specs in mat:
+                    if phase in ("plain", "tagged"):
+                        out[(phase, idx)] = rm.decode(h.match(m, path, ret="stream"))
+                    else:
+                        out[(phase, idx)] = h.match(m, path, only_addr=True)
+        except Exception as e:
             res.evaluations += 1
-            specs = [spec(lo, hi, A[i]) for i in idx]
+            res.fail({"clause": "crash", "family": "range", "config": conf, "expected": "no exception", "observed": repr(e), "size": 1}, known)
+            continue
+        for idx, att, text, path, specs in mat:
+            res.evaluations += 1
             if any(A[i][0] in ("call", "jmp") and isinstance(A[i][2], int) for i in idx):
                 res.nontrivial += 1
             probs = []
-            try:
-                # the global config is process-wide: compile the rule that owns it right before use
-                m_plain = h.mop(make_rule_doc(["zzzznomatch"]))
-                plain = rm.decode(h.match(m_plain, path, ret="stream"))
-                m_stream = h.mop(make_rule_doc(["zzzznomatch"], conf))
-                tagged = rm.decode(h.match(m_stream, path, ret="stream"))
-            except Exception as e:
-                res.fail({"clause": "crash", "family": "range", "config": conf, "listing": [[a, m, o] for a, m, o in att],
-                          "expected": "no exception", "observed": repr(e), "size": len(att)}, known)
-                continue
-            want_plain = [e1.norm_inst(*x) for x in att]
+            plain, tagged = out[("plain", idx)], out[("tagged", idx)]
+            want_plain = [(a, m, tuple(rm.normalise_operand(o) for o in ops)) for a, m, ops in att]   # None = outside the C09 table
             same = len(plain) == len(want_plain) and all(
                 p[0] == w[0] and p[1] == w[1] and len(p[2]) == len(w[2]) and all(wo is None or wo == po for po, wo in zip(p[2], w[2]))
                 for p, w in zip(plain, want_plain))
@@ -132,14 +133,12 @@ def run_shard(shard, tier, h, res, known):
                     elif sp_ == "keep" and t[2] != p[2]:
                         probs.append(("must-not-tag", p, t))
                 for mn in ("call", "jmp"):
-                    mr = h.mop(make_rule_doc([{mn: ["valid_addr"]}], conf))
-                    got = h.match(mr, path, only_addr=True)
-                    want = [a for (a, m, _), s_ in zip(plain, specs) if m == mn and s_ == "tag"]
-                    if got != want:
-                        probs.append(("rule", want, got))
+                    want = [a for (a, m_, _), s_ in zip(plain, specs) if m_ == mn and s_ == "tag"]
+                    if out[(mn, idx)] != want:
+                        probs.append(("rule", want, out[(mn, idx)]))
             for clause, exp, obs in probs:
                 res.fail({"clause": clause, "family": "range", "config": conf, "listing": [[a, m, o] for a, m, o in att],
-                          "text": "\n".join(tl), "expected": exp, "observed": obs, "size": len(att) * 10}, known)
+                          "text": text, "expected": exp, "observed": obs, "size": len(att) * 10}, known)
         if len(res.samples) < 1:
             res.samples.append({"config": conf, "alphabet": [[a[0], a[1]] for a in A][:8]})
 
